@@ -8,6 +8,7 @@ Tokenizer laws used (hypotheses, discharged for the concrete tokenizer in `Proof
   `TagSpan tk`   the raw bytes of a tag token start with `<` and end with `>` (only needed for replace)
 -/
 import RioModel.Proofs.Filter
+import RioModel.Proofs.FilterStreamLaws
 set_option linter.unusedSimpArgs false
 set_option linter.unusedVariables false
 
@@ -16,6 +17,12 @@ namespace Rio.Filter
 /-! ### tokenizer laws -/
 
 def Lossless (tk : Tokenize) : Prop := ∀ d, rawsOf (tk d).1 ++ (tk d).2 = d
+
+/-- both tokenizer entry points lose nothing: `Tokenizer::new` (append_child / prepend_child) and
+`Tokenizer::new_fragment` (the filter loop) -/
+structure LosslessAll (tk : Tokenize) : Prop where
+  plain : Lossless tk
+  stream : LosslessS tk
 
 def isTagKind (k : TokKind) : Bool := k == .startTag || k == .endTag || k == .selfClosing
 
@@ -64,12 +71,6 @@ theorem visRep_of_static {v w : Visitor} (h : v.static = w.static) : visRep v = 
 
 /-! ### `append_child` / `prepend_child` insert one whole copy of the value or nothing -/
 
-theorem rawsOf_cons (t : Tok) (ts : List Tok) : rawsOf (t :: ts) = t.raw ++ rawsOf ts := by
-  simp [rawsOf]
-
-theorem rawsOf_append (a b : List Tok) : rawsOf (a ++ b) = rawsOf a ++ rawsOf b := by
-  simp [rawsOf]
-
 theorem appendChildGo_edit (child : Bytes) (R : List Bytes) :
     ∀ (ts : List Tok) (rest : Bytes) (level : Int) (out r : Bytes),
       appendChildGo child ts rest level out = some r → Edit [child] R (out ++ rawsOf ts ++ rest) r := by
@@ -96,10 +97,10 @@ theorem appendChildGo_edit (child : Bytes) (R : List Bytes) :
       have := ih _ _ _ _ h
       simpa [rawsOf_cons] using this
 
-theorem appendChild_edit {tk : Tokenize} (hl : Lossless tk) (content child : Bytes) (R : List Bytes) :
+theorem appendChild_edit {tk : Tokenize} (hl : LosslessAll tk) (content child : Bytes) (R : List Bytes) :
     Edit [child] R content (appendChild tk content child) := by
   unfold appendChild
-  have hls := hl content
+  have hls := hl.plain content
   cases hg : appendChildGo child (tk content).1 (tk content).2 0 [] with
   | none => simp [hg]; exact Edit.refl _
   | some r =>
@@ -124,10 +125,10 @@ theorem prependChildGo_edit (child : Bytes) (R : List Bytes) :
     · have := ih _ _ _ h
       simpa [rawsOf_cons] using this
 
-theorem prependChild_edit {tk : Tokenize} (hl : Lossless tk) (content child : Bytes) (R : List Bytes) :
+theorem prependChild_edit {tk : Tokenize} (hl : LosslessAll tk) (content child : Bytes) (R : List Bytes) :
     Edit [child] R content (prependChild tk content child) := by
   unfold prependChild
-  have hls := hl content
+  have hls := hl.plain content
   cases hg : prependChildGo child (tk content).1 (tk content).2 [] with
   | none => simp [hg]; exact Edit.refl _
   | some r =>
@@ -163,7 +164,7 @@ theorem Visitor.leave_static (tk : Tokenize) (ev : Bytes → Bytes → Bool) (v 
     repeat' split
     all_goals (simp [Visitor.static] at this ⊢; try exact this)
 
-theorem Visitor.leave_edit {tk : Tokenize} (hl : Lossless tk) (ev : Bytes → Bytes → Bool) (v : Visitor) (d : Bytes)
+theorem Visitor.leave_edit {tk : Tokenize} (hl : LosslessAll tk) (ev : Bytes → Bytes → Bool) (v : Visitor) (d : Bytes)
     (hs : v.kind = .replace → IsSpan d) :
     Edit (visIns v) (visRep v) d (v.leave tk ev d).1.2.2 := by
   unfold Visitor.leave
@@ -284,7 +285,7 @@ theorem onStart_spec (s : HtmlSt) (name data : Bytes) :
   · rw [if_neg he]
     exact ⟨rfl, rfl, Or.inl rfl, Edit.refl _, fun _ => rfl, fun _ h => h⟩
 
-theorem onEnd_spec {tk : Tokenize} (hl : Lossless tk) (ev : Bytes → Bytes → Bool) (s : HtmlSt) (name data : Bytes)
+theorem onEnd_spec {tk : Tokenize} (hl : LosslessAll tk) (ev : Bytes → Bytes → Bool) (s : HtmlSt) (name data : Bytes)
     (hs : s.visitor.kind = .replace →
       IsSpan (if topMatches s.stack name then topBuffer s.stack ++ data else data)) :
     (onEnd tk ev s name data).1.visitor.static = s.visitor.static ∧
@@ -344,7 +345,7 @@ theorem HInv_head {st : List Link} (h : HInv st) : ∀ l ∈ st.head?, l.buffer.
   | cons a rest => simp at hl; subst hl; exact h _ (by simp)
 
 section
-variable {tk : Tokenize} (hl : Lossless tk) (ev : Bytes → Bytes → Bool)
+variable {tk : Tokenize} (hl : LosslessAll tk) (ev : Bytes → Bytes → Bool)
 include hl
 
 theorem onEnd_push_spec (s : HtmlSt) (out name data : Bytes)
@@ -454,7 +455,7 @@ theorem kind_of_static {v w : Visitor} (h : v.static = w.static) : v.kind = w.ki
   simp [Visitor.static] at h; exact h.1
 
 section
-variable {tk : Tokenize} (hl : Lossless tk) (ev : Bytes → Bytes → Bool)
+variable {tk : Tokenize} (hl : LosslessAll tk) (ev : Bytes → Bytes → Bool)
 include hl
 
 theorem start_end_push_spec (s : HtmlSt) (out : Bytes) (t : Tok)
@@ -591,7 +592,7 @@ theorem splitHeld_spec (ts : List Tok) :
     simp [ht]
 
 section
-variable {tk : Tokenize} (hl : Lossless tk) (ev : Bytes → Bytes → Bool)
+variable {tk : Tokenize} (hl : LosslessAll tk) (ev : Bytes → Bytes → Bool)
 include hl
 
 theorem fold_spec (ts : List Tok) : ∀ (s : HtmlSt) (out : Bytes),
@@ -623,28 +624,26 @@ theorem fold_spec (ts : List Tok) : ∀ (s : HtmlSt) (out : Bytes),
     exact Edit.trans (Edit.appR _ h4) i4
 
 /-- One call of the html stage: held bytes followed by the input are related by `Edit` to the output followed by the
-new held bytes; the configuration of the visitor does not change; buffered elements keep starting with `<`. -/
+new held bytes; the configuration of the visitor does not change; buffered elements keep starting with `<`.
+(`LosslessS`: the stream tokenizer loses nothing; `TagSpanS`: its tag tokens are `<…>` spans.) -/
 theorem filterHtml_spec (s s' : HtmlSt) (x o : Bytes)
-    (hts : s.visitor.kind = .replace → TagSpan tk)
+    (hts : s.visitor.kind = .replace → TagSpanS tk)
     (hinv : s.visitor.kind = .replace → HInv s.stack)
     (h : filterHtml tk ev s x = some (s', o)) :
     s'.visitor.static = s.visitor.static ∧
     (s.visitor.kind = .replace → HInv s'.stack) ∧
     Edit (visIns s.visitor) (visRep s.visitor) (endHtml s ++ x) (o ++ endHtml s') := by
-  unfold filterHtml at h
+  rw [filterHtml_view] at h
   split at h
   · simp at h
   · rename_i data pending hsplit
     have hdp := utf8Split_append hsplit
-    have hls := hl data
-    obtain ⟨hsh, hmem⟩ := splitHeld_spec (tk data).1
-    simp only at h
-    generalize htd : splitHeld (tk data).1 = sh at h hsh hmem
-    obtain ⟨todo, held⟩ := sh
-    simp only at h hsh hmem
-    obtain ⟨f1, f2, f3, f4⟩ := fold_spec hl ev todo s []
-      (fun hk t ht => hts hk data t (hmem t ht)) hinv
-    generalize hf : todo.foldl (stepTok tk ev) (s, []) = fr at h f1 f2 f3 f4
+    have hvt := view_todo_tail tk hl.stream s.ctx data
+    obtain ⟨f1, f2, f3, f4⟩ := fold_spec hl ev (view tk s.ctx data).todo s []
+      (fun hk t ht hkind => by
+        obtain ⟨x', hx', rfl⟩ := view_all_mem tk s.ctx data t (view_todo_sub tk s.ctx data t ht)
+        exact hts hk s.ctx data x' hx' hkind) hinv
+    generalize hf : (view tk s.ctx data).todo.foldl (stepTok tk ev) (s, []) = fr at h f1 f2 f3 f4
     obtain ⟨sf, outf⟩ := fr
     simp only at h f1 f2 f3 f4
     injection h with h
@@ -652,13 +651,9 @@ theorem filterHtml_spec (s s' : HtmlSt) (x o : Bytes)
     subst hs' ho
     refine ⟨f1, f3, ?_⟩
     simp only [endHtml_eq]
-    -- s.last ++ x = rawsOf todo ++ (held ++ rest ++ pending)
-    have hsplit2 : s.last ++ x = rawsOf todo ++ (held ++ (tk data).2 ++ pending) := by
-      calc s.last ++ x = data ++ pending := hdp.symm
-        _ = (rawsOf (tk data).1 ++ (tk data).2) ++ pending := by rw [hls]
-        _ = ((rawsOf todo ++ held) ++ (tk data).2) ++ pending := by rw [hsh]
-        _ = _ := by simp
-    have := Edit.appR (held ++ (tk data).2 ++ pending) f4
+    have hsplit2 : s.last ++ x = rawsOf (view tk s.ctx data).todo ++ ((view tk s.ctx data).tail ++ pending) := by
+      rw [← List.append_assoc, hvt, hdp]
+    have := Edit.appR ((view tk s.ctx data).tail ++ pending) f4
     simp only [ledger, List.nil_append] at this
     rw [List.append_assoc, hsplit2]
     simpa [List.append_assoc] using this
